@@ -111,14 +111,18 @@ impl InferShapes for Div {
         inputs: InferShapesContext,
         sym_gen: &mut SymbolGen,
     ) -> Result<Vec<SymTensor>, InferShapesError> {
-        let div = |x: &SymExpr, y: &SymExpr| {
-            Some(match (x, y) {
-                // `checked_div` also excludes `i32::MIN / -1`, which overflows.
-                (SymExpr::Value(x), SymExpr::Value(y)) if x.checked_div(*y).is_some() => {
-                    SymExpr::Value(x / y)
-                }
-                _ => x.clone() / y.clone(),
-            })
+        let div = |x: &SymExpr, y: &SymExpr| match (x, y) {
+            // Values may come from either integer or float tensors (floats
+            // with integral values are tracked as integers), and the two
+            // divide differently unless the division is exact. Only exact
+            // quotients are folded; otherwise only the shape is inferred.
+            // `checked_rem` also excludes division by zero and
+            // `i32::MIN / -1`, which overflows.
+            (SymExpr::Value(x), SymExpr::Value(y)) => match x.checked_rem(*y) {
+                Some(0) => Some(SymExpr::Value(x / y)),
+                _ => None,
+            },
+            _ => Some(x.clone() / y.clone()),
         };
         binary_op_infer_shapes(inputs, sym_gen, div)
     }
